@@ -9,7 +9,7 @@ import B6.Spec.ShortestPath
   `Reach.trace_settled`, `Reach.nondecreasing`;
 * `walk_exit` and `settled_le_walk` (settled entries carry final distances, in every state);
 * `Inv.init`, `Inv.initTo` (initial tables of `ExpandSearch` / `ExpandSearchTo`);
-* `buildRoute_sound`; `isMinB_sound`, `allVisited_sound`, `foldl_relaxH_table` (heap run ⊑ abstract run).
+* `buildRoute_sound`, `buildRoute_terminates` (`Ranked`: back-pointers lead to earlier-settled points); `isMinB_sound`, `allVisited_sound`, `foldl_relaxH_table` (heap run ⊑ abstract run).
 -/
 set_option linter.unusedSectionVars false
 set_option linter.unusedVariables false
@@ -713,4 +713,187 @@ theorem foldl_relaxH_table (max d : α) (es : List (Edge P S α)) :
       rw [this, ht]
 
 end inv
+section term
+variable {P S α : Type} [DecidableEq P] [Cost α]
+variable [LawfulCost α]
+variable {g : Graph P S α} {max : α}
+
+/-! ### `BuildRoute` terminates: back-pointers lead to points that were settled strictly earlier -/
+
+/-- more fuel does not change a finished `buildRoute` -/
+theorem buildRoute_mono (t : Table P S α) :
+    ∀ (n : Nat) (p : P) (acc : List (Step P S α)) (r : P × List (Step P S α)),
+      buildRoute t n p acc = some r → buildRoute t (n + 1) p acc = some r := by
+  intro n
+  induction n with
+  | zero => intro p acc r h; simp [buildRoute] at h
+  | succ n ih =>
+    intro p acc r h
+    rw [buildRoute] at h ⊢
+    cases hp : tget t p with
+    | none => rw [hp] at h; simpa using h
+    | some e =>
+      rw [hp] at h
+      cases hb : e.back with
+      | none => simp [hb] at h; simp [hb, h]
+      | some b =>
+        simp [hb] at h
+        simp [hb]
+        exact ih _ _ _ h
+
+theorem buildRoute_mono_le (t : Table P S α) {n m : Nat} (hnm : n ≤ m) {p : P} {acc : List (Step P S α)}
+    {r : P × List (Step P S α)} (h : buildRoute t n p acc = some r) : buildRoute t m p acc = some r := by
+  induction hnm with
+  | refl => exact h
+  | step _ ih => exact buildRoute_mono t _ _ _ _ ih
+
+/-- every popped point's back-pointer starts at a point popped earlier (`tr` is most recent first) -/
+def Ranked (t : Table P S α) : List (P × α) → Prop
+  | [] => True
+  | (q, _) :: l => Ranked t l ∧ ∀ e b, tget t q = some e → e.back = some b → b.first ∈ l.map (·.1)
+
+theorem Ranked.terminates {t : Table P S α} :
+    ∀ (l : List (P × α)), Ranked t l → ∀ u, u ∈ l.map (·.1) → ∀ acc, ∃ r, buildRoute t l.length u acc = some r := by
+  intro l
+  induction l with
+  | nil => intro _ u hu; simp at hu
+  | cons hd l ih =>
+    obtain ⟨q, d⟩ := hd
+    intro hR u hu acc
+    obtain ⟨hRl, hq⟩ := hR
+    by_cases huq : u = q
+    · subst huq
+      simp only [List.length_cons, buildRoute]
+      cases hp : tget t u with
+      | none => exact ⟨_, rfl⟩
+      | some e =>
+        cases hb : e.back with
+        | none => simp [hb]
+        | some b =>
+          simp only [hb]
+          exact ih hRl b.first (hq e b hp hb) _
+    · have hu' : u ∈ l.map (·.1) := by
+        simp at hu
+        rcases hu with h | h
+        · exact absurd h huq
+        · simpa using h
+      obtain ⟨r, hr⟩ := ih hRl u hu' acc
+      exact ⟨r, buildRoute_mono t _ _ _ _ hr⟩
+
+/-- where a back-pointer of the table after `relax` comes from -/
+theorem relax_back (d : α) (t : Table P S α) (e : Edge P S α) {q : P} {x : Entry P S α} {b : Edge P S α}
+    (hx : tget (relax max d t e) q = some x) (hb : x.back = some b) :
+    (∃ x0, tget t q = some x0 ∧ x0.back = some b) ∨ b = e := by
+  rcases relax_spec max d t e with ⟨heq, _⟩ | ⟨_, _, ne, heq, _, _, hnb, _⟩
+  · rw [heq] at hx; exact Or.inl ⟨x, hx, hb⟩
+  · rw [heq, get_put] at hx
+    by_cases hq : q = e.last
+    · simp [hq] at hx; subst hx; rw [hnb] at hb; cases hb; exact Or.inr rfl
+    · simp [hq] at hx; exact Or.inl ⟨x, hx, hb⟩
+
+theorem foldl_relax_back (d : α) (es : List (Edge P S α)) :
+    ∀ (t : Table P S α) {q : P} {x : Entry P S α} {b : Edge P S α},
+      tget (es.foldl (relax max d) t) q = some x → x.back = some b →
+      (∃ x0, tget t q = some x0 ∧ x0.back = some b) ∨ b ∈ es := by
+  induction es with
+  | nil => intro t q x b hx hb; exact Or.inl ⟨x, hx, hb⟩
+  | cons e rest ih =>
+    intro t q x b hx hb
+    rcases ih (relax max d t e) hx hb with ⟨x0, hx0, hb0⟩ | hmem
+    · rcases relax_back d t e hx0 hb0 with h | h
+      · exact Or.inl h
+      · exact Or.inr (h ▸ List.mem_cons_self)
+    · exact Or.inr (List.mem_cons_of_mem _ hmem)
+
+theorem expand_back {t t' : Table P S α} {p q : P} {x : Entry P S α} {b : Edge P S α}
+    (hexp : Model.Dijkstra.expand g max t p = some t') (hx : tget t' q = some x) (hb : x.back = some b) :
+    (∃ x0, tget t q = some x0 ∧ x0.back = some b) ∨ b ∈ g.adj p := by
+  unfold Model.Dijkstra.expand markVisited at hexp
+  cases hp : tget t p with
+  | none => simp [hp] at hexp
+  | some r =>
+    simp [hp] at hexp
+    subst hexp
+    rcases foldl_relax_back r.dist (g.adj p) _ hx hb with ⟨x0, hx0, hb0⟩ | h
+    · left
+      rw [get_put] at hx0
+      by_cases hq : q = p
+      · subst hq; simp at hx0; subst hx0; exact ⟨r, hp, hb0⟩
+      · simp [hq] at hx0; exact ⟨x0, hx0, hb0⟩
+    · exact Or.inr h
+
+theorem Ranked.frozen {t t' : Table P S α} (l : List (P × α))
+    (hfz : ∀ q, q ∈ l.map (·.1) → ∀ x, tget t q = some x → tget t' q = some x)
+    (hin : ∀ q, q ∈ l.map (·.1) → ∃ x, tget t q = some x)
+    (h : Ranked t l) : Ranked t' l := by
+  induction l with
+  | nil => trivial
+  | cons hd l ih =>
+    obtain ⟨q, d⟩ := hd
+    obtain ⟨hl, hq⟩ := h
+    refine ⟨ih (fun q' hq' => hfz q' (by simp at hq' ⊢; exact Or.inr hq'))
+      (fun q' hq' => hin q' (by simp at hq' ⊢; exact Or.inr hq')) hl, ?_⟩
+    intro e b he hb
+    obtain ⟨x0, hx0⟩ := hin q (by simp)
+    have := hfz q (by simp) x0 hx0
+    rw [this] at he; cases he
+    exact hq e b hx0 hb
+
+/-- along every run: popped points are ranked, and every back-pointer starts at a popped point -/
+theorem Reach.ranked {t0 t : Table P S α} {tr : List (P × α)} (hF : FirstOk g)
+    (h0 : ∀ q x, tget t0 q = some x → x.back = none) (h : Reach g max t0 tr t) :
+    Ranked t tr ∧ ∀ q x b, tget t q = some x → x.back = some b → b.first ∈ tr.map (·.1) := by
+  induction h with
+  | refl =>
+    refine ⟨trivial, ?_⟩
+    intro q x b hx hb
+    rw [h0 q x hx] at hb; cases hb
+  | @step tr t t' p ep hr hmin hp hexp ih =>
+    obtain ⟨hR, hall⟩ := ih
+    have hall' : ∀ q x b, tget t' q = some x → x.back = some b → b.first ∈ ((p, ep.dist) :: tr).map (·.1) := by
+      intro q x b hx hb
+      rcases expand_back hexp hx hb with ⟨x0, hx0, hb0⟩ | hadj
+      · simp; exact Or.inr (by simpa using hall q x0 b hx0 hb0)
+      · simp; exact Or.inl (hF p b hadj)
+    refine ⟨⟨?_, ?_⟩, hall'⟩
+    · apply Ranked.frozen tr _ _ hR
+      · intro q hq x hx
+        simp at hq
+        obtain ⟨d, hqd⟩ := hq
+        obtain ⟨x', hx', hv, _⟩ := hr.trace_settled q d hqd
+        rw [hx] at hx'; cases hx'
+        exact expand_frozen hexp hx hv
+      · intro q hq
+        simp at hq
+        obtain ⟨d, hqd⟩ := hq
+        obtain ⟨x', hx', _, _⟩ := hr.trace_settled q d hqd
+        exact ⟨x', hx'⟩
+    · intro e b he hb
+      have := expand_self hexp hp
+      rw [this] at he; cases he
+      simpa using hall p ep b hp hb
+
+
+/-- `BuildRoute` ends for every point, within (number of settled points + 1) iterations -/
+theorem buildRoute_terminates {origins : List P} {t : Table P S α} {tr : List (P × α)} (hF : FirstOk g)
+    (h : Reach g max (initTable origins) tr t) (p : P) (acc : List (Step P S α)) :
+    ∃ r, buildRoute t (tr.length + 1) p acc = some r := by
+  have h0 : ∀ q x, tget (initTable origins : Table P S α) q = some x → x.back = none := by
+    intro q x hx
+    rw [initTable_get] at hx
+    by_cases hq : q ∈ origins
+    · simp [hq] at hx; subst hx; rfl
+    · simp [hq] at hx
+  obtain ⟨hR, hall⟩ := h.ranked hF h0
+  simp only [buildRoute]
+  cases hp : tget t p with
+  | none => exact ⟨_, rfl⟩
+  | some e =>
+    cases hb : e.back with
+    | none => simp [hb]
+    | some b =>
+      simp only [hb]
+      exact hR.terminates tr b.first (hall p e b hp hb) _
+
+end term
 end B6.Lemmas.Dijkstra
